@@ -644,6 +644,11 @@ class _lib(typing.NamedTuple):
             return getattr(self.module, name)
 
 
+# all spellings under which an Awkward record may carry these coordinates
+_longitudinal_names = ("z", "pz", "theta", "eta")
+_temporal_names = ("t", "E", "e", "energy", "tau", "M", "m", "mass")
+
+
 class VectorAwkward:
     """Mixin class for Awkward vectors."""
 
@@ -732,9 +737,9 @@ class VectorAwkward:
                         names.append(name)
                         arrays.append(self[name])
 
-            if "t" in fields or "tau" in fields:
+            if any(x in fields for x in _temporal_names):
                 cls = cls.ProjectionClass4D
-            elif "z" in fields or "theta" in fields or "eta" in fields:
+            elif any(x in fields for x in _longitudinal_names):
                 cls = cls.ProjectionClass3D
             else:
                 cls = cls.ProjectionClass2D
@@ -855,7 +860,7 @@ class VectorAwkward:
                         names.append(name)
                         arrays.append(self[name])
 
-            if "t" in fields or "tau" in fields:
+            if any(x in fields for x in _temporal_names):
                 cls = cls.ProjectionClass4D
             else:
                 cls = cls.ProjectionClass3D
